@@ -41,6 +41,17 @@ class ArgsFamily(ScenarioFamily):
         scn["epilogue"] = ["close_pool"]
         if self.ex == "threads":
             scn["policy"] = {"mode": "ops", "op_p": 0.5}
+        # HTTP/2: half of the time an upload larger than the server's window, so that
+        # the reads made while waiting for flow-control credit are exercised too
+        h2cfgs = [c for c in scn["net"]["endpoints"].values() if "h2" in c]
+        if h2cfgs and r.random() < 0.5:
+            for c in h2cfgs:
+                c["h2"]["settings"]["initial_window_size"] = r.choice([100, 1000, 4000])
+                c["h2"]["wu"] = r.choice(["eager", "late", "tiny", "batched"])
+            op0 = scn["callers"][0]["ops"][0]
+            n = r.choice([3000, 9000])
+            op0["method"] = "POST"
+            op0["body"] = {"len": n, "chunks": gen.gen_chunks(r, n), "oneshot": False}
         # distinct values per caller and per kind; some unset, some None
         for ci, c in enumerate(scn["callers"]):
             for op in c["ops"]:
@@ -288,9 +299,9 @@ register("C16", {
             "(fifo+shuffle) and pre-emptive threads; all runs non-trivial",
     "assumptions": ["seam L1: the simulated stream honours the timeout it is given; what is "
                     "checked is which value httpcore passes to which operation",
-                    "seam L2 (two families): the real SyncBackend's settimeout() values reach the "
-                    "fake socket, and the real AnyIOBackend's anyio.fail_after() fires in virtual "
-                    "time when an operation stalls"],
+                    "seam L2 (three families): the real SyncBackend's settimeout() values reach "
+                    "the fake socket, and the real AnyIOBackend's anyio.fail_after() / the real "
+                    "TrioBackend's trio.fail_after() fire in virtual time when an operation stalls"],
 }, [ArgsFamily("timeout-args-async", "asyncio", 1500, 30000),
     ArgsFamily("timeout-args-threads", "threads", 500, 10000),
     PoolDeadlineFamily("pool-deadline-async", "asyncio", 1500, 30000),
